@@ -421,9 +421,10 @@ def _compute_tendon_dot_product(
 def _compute_cam_pos0(
   cam_bodyid: wp.array[int],
   cam_targetbodyid: wp.array[int],
-  cam_xpos_in: wp.array2d[wp.vec3],
-  cam_xmat_in: wp.array2d[wp.mat33],
+  cam_pos: wp.array2d[wp.vec3],
+  cam_quat: wp.array2d[wp.quat],
   xpos_in: wp.array2d[wp.vec3],
+  xquat_in: wp.array2d[wp.quat],
   subtree_com_in: wp.array2d[wp.vec3],
   cam_pos0_out: wp.array2d[wp.vec3],
   cam_poscom0_out: wp.array2d[wp.vec3],
@@ -433,23 +434,28 @@ def _compute_cam_pos0(
   cam_pos0_id = worldid % cam_pos0_out.shape[0]
   bodyid = cam_bodyid[camid]
   targetid = cam_targetbodyid[camid]
-  cam_xpos = cam_xpos_in[worldid, camid]
+
+  # reference pose is the body-fixed pose: d.cam_xpos/cam_xmat already have the tracking / targeting mode applied
+  xquat = xquat_in[worldid, bodyid]
+  cam_xpos = xpos_in[worldid, bodyid] + mjmath.rot_vec_quat(cam_pos[worldid % cam_pos.shape[0], camid], xquat)
+  cam_xmat = mjmath.quat_to_mat(mjmath.mul_quat(xquat, cam_quat[worldid % cam_quat.shape[0], camid]))
 
   cam_pos0_out[cam_pos0_id, camid] = cam_xpos - xpos_in[worldid, bodyid]
   if targetid >= 0:
     cam_poscom0_out[cam_pos0_id, camid] = cam_xpos - subtree_com_in[worldid, targetid]
   else:
     cam_poscom0_out[cam_pos0_id, camid] = cam_xpos - subtree_com_in[worldid, bodyid]
-  cam_mat0_out[cam_pos0_id, camid] = cam_xmat_in[worldid, camid]
+  cam_mat0_out[cam_pos0_id, camid] = cam_xmat
 
 
 @wp.kernel
 def _compute_light_pos0(
   light_bodyid: wp.array[int],
   light_targetbodyid: wp.array[int],
-  light_xpos_in: wp.array2d[wp.vec3],
-  light_xdir_in: wp.array2d[wp.vec3],
+  light_pos: wp.array2d[wp.vec3],
+  light_dir: wp.array2d[wp.vec3],
   xpos_in: wp.array2d[wp.vec3],
+  xquat_in: wp.array2d[wp.quat],
   subtree_com_in: wp.array2d[wp.vec3],
   light_pos0_out: wp.array2d[wp.vec3],
   light_poscom0_out: wp.array2d[wp.vec3],
@@ -459,14 +465,18 @@ def _compute_light_pos0(
   light_pos0_id = worldid % light_pos0_out.shape[0]
   bodyid = light_bodyid[lightid]
   targetid = light_targetbodyid[lightid]
-  light_xpos = light_xpos_in[worldid, lightid]
+
+  # reference pose is the body-fixed pose: d.light_xpos/light_xdir already have the tracking / targeting mode applied
+  xquat = xquat_in[worldid, bodyid]
+  light_xpos = xpos_in[worldid, bodyid] + mjmath.rot_vec_quat(light_pos[worldid % light_pos.shape[0], lightid], xquat)
+  light_xdir = wp.normalize(mjmath.rot_vec_quat(light_dir[worldid % light_dir.shape[0], lightid], xquat))
 
   light_pos0_out[light_pos0_id, lightid] = light_xpos - xpos_in[worldid, bodyid]
   if targetid >= 0:
     light_poscom0_out[light_pos0_id, lightid] = light_xpos - subtree_com_in[worldid, targetid]
   else:
     light_poscom0_out[light_pos0_id, lightid] = light_xpos - subtree_com_in[worldid, bodyid]
-  light_dir0_out[light_pos0_id, lightid] = light_xdir_in[worldid, lightid]
+  light_dir0_out[light_pos0_id, lightid] = light_xdir
 
 
 @wp.kernel
@@ -776,7 +786,7 @@ def set_const_0(m: types.Model, d: types.Data, restore: bool = True):
   wp.launch(
     _compute_cam_pos0,
     dim=(nworld_cam, m.ncam),
-    inputs=[m.cam_bodyid, m.cam_targetbodyid, d.cam_xpos, d.cam_xmat, d.xpos, d.subtree_com],
+    inputs=[m.cam_bodyid, m.cam_targetbodyid, m.cam_pos, m.cam_quat, d.xpos, d.xquat, d.subtree_com],
     outputs=[m.cam_pos0, m.cam_poscom0, m.cam_mat0],
   )
 
@@ -784,7 +794,7 @@ def set_const_0(m: types.Model, d: types.Data, restore: bool = True):
   wp.launch(
     _compute_light_pos0,
     dim=(nworld_light, m.nlight),
-    inputs=[m.light_bodyid, m.light_targetbodyid, d.light_xpos, d.light_xdir, d.xpos, d.subtree_com],
+    inputs=[m.light_bodyid, m.light_targetbodyid, m.light_pos, m.light_dir, d.xpos, d.xquat, d.subtree_com],
     outputs=[m.light_pos0, m.light_poscom0, m.light_dir0],
   )
 
